@@ -22,6 +22,11 @@ CHECKS = {
    text="TLC checks RoundTripT, InOccupancy, TZeroOnlyAtStart, Monotone (walking T along the grid), RunsOK and ContIffOneRun for all paths of <= 3 (quick) / 4 (thorough) segments with lengths from a set containing 0 and 64; every case is realised as a real Path (uniform-speed Line/Quadratic/Cubic chains; mixed L/Q/C/A geometry for every joint pattern incl. the closing joint) and T2t, t2T, point, start/end, iscontinuous, isclosed, continuous_subpaths are compared with the model - exactly when all lengths are powers of two.",
    note="Trusted: TLC; exact comparison only on dyadic chains, otherwise 1e-9/1e-12 tolerances (either side of a boundary accepted). Effects one ulp below T=1 (a rounding effect outside the lattice) are not decided.",
    ref="4 (C05), 3.5"),
+ 'C07': dict(
+   technique="TLA+ state machine of the bisection loop of inv_arclength (Bisect.tla) model-checked with TLC over all monotone length tables; every run of the real ilength recorded probe by probe and validated by Bisect_Trace.tla; exact inverses on constant-speed curves",
+   text="TLC checks Terminates, FewSteps, Bracket, Post, Ends, Monotone and RunAgrees for every non-decreasing table on a 2^P grid, every target and tolerances below the table's resolution (the unreachable-tolerance regime); ~350 real runs (8 segment shapes and 3 paths x scales 1e-3..1e6 x 9 targets incl. 0, L and near-ends, scipy and no-scipy) are recorded by wrapping length() and must be accepted by the trace spec (each probe = midpoint of the dyadic bracket, or the float-resolution stall followed by the return); results are compared with s/L on constant-speed curves, checked for monotonicity, the post-condition and ValueError outside [0,L].",
+   note="Trusted: TLC; the recorder (harness-side wrapper of length(), no source hook). Post-condition slack max(s_tol, 1e-11 L). Without scipy only scales <= 1 (the fallback integrator needs seconds per call at 1e6).",
+   ref="4 (C07), 3.10"),
  'C16': dict(
    technique="TLA+ state machine of Path's mutators and caches (PathSeq) and of the per-segment length cache (SegCache) model-checked with TLC; every behaviour replayed on real objects and compared with fresh ones; recorded histories validated by PathSeq_Trace.tla",
    text="TLC checks CacheCoherent / AnswerFresh / MutInvalidates over all histories of the 15 mutator and query actions to depth 4 (quick) / 6 (thorough); every behaviour of a small configuration plus simulated long ones is replayed on a warm and a lazy real Path with every query compared with a freshly built Path and with the model after each step, with and without scipy; SegCache histories are replayed on real Cubic/Quadratic segments; random 60-step histories of real Paths are accepted by the trace spec, which demands the fresh answers.",
